@@ -94,6 +94,9 @@ package signal
 //@ requires[C07] cell != nil
 //@ arith wrap
 //@ atcall[C08] fmt.Sprintf /^%s %2d \{%s, %s, %d, %v, %d, %\.3f\}$/: cell.Satellite != nil && cell.Satellite.RangeWholeMillis == 255 ==> argstr(a1, 2) == "invalid" && argstr(a1, 3) == "invalid"
+// ... and the numbers shown are the delta in metres and the values of RangeInMetres / PhaseRange (fallback to the rough range for an invalid delta included)
+//@ atcall[C08] fmt.Sprintf /^\(%d, %\.3f, %\.3f\)$/: Cell4WF(cell) && cell.Satellite.RangeWholeMillis != 255 && aggRange(cell.Satellite.RangeWholeMillis, cell.Satellite.RangeFractionalMillis, 32 * cell.RangeDelta) >= 0 ==> argint(a1, 0) == cell.RangeDelta && near(argreal(a1, 1), CLIGHT_MS * real(cell.RangeDelta) / 16777216.0, 3) && (cell.RangeDelta != 0 - 16384 ==> near(argreal(a1, 2), CLIGHT_MS * (real(cell.Satellite.RangeWholeMillis) + real(cell.Satellite.RangeFractionalMillis) / 1024.0 + real(cell.RangeDelta) / 16777216.0), 4)) && (cell.RangeDelta == 0 - 16384 ==> near(argreal(a1, 2), CLIGHT_MS * (real(cell.Satellite.RangeWholeMillis) + real(cell.Satellite.RangeFractionalMillis) / 1024.0), 4))
+//@ atcall[C08] fmt.Sprintf /^\(%d, %\.3f\)$/: Cell4WF(cell) && cell.Satellite.RangeWholeMillis != 255 && aggPhase(cell.Satellite.RangeWholeMillis, cell.Satellite.RangeFractionalMillis, 4 * cell.PhaseRangeDelta) >= 0 && cell.Wavelength > 0.0 ==> argint(a1, 0) == cell.PhaseRangeDelta && (cell.PhaseRangeDelta != 0 - 2097152 ==> near(argreal(a1, 1) * cell.Wavelength, CLIGHT_MS * (real(cell.Satellite.RangeWholeMillis) + real(cell.Satellite.RangeFractionalMillis) / 1024.0 + real(cell.PhaseRangeDelta) / 536870912.0), 6)) && (cell.PhaseRangeDelta == 0 - 2097152 ==> near(argreal(a1, 1) * cell.Wavelength, CLIGHT_MS * (real(cell.Satellite.RangeWholeMillis) + real(cell.Satellite.RangeFractionalMillis) / 1024.0), 6))
 
 // ---- C08 ------------------------------------------------------------------------
 // Field ranges of a decoded cell (what the decoders produce): 8-bit whole ms, 10-bit
@@ -103,16 +106,16 @@ package signal
 //@ func (*Cell).GetAggregateRange
 //@ arith wrap
 //@ requires[C07] cell != nil
-//@ ensures[C08] Cell4WF(cell) && aggRange(cell.Satellite.RangeWholeMillis, cell.Satellite.RangeFractionalMillis, 32 * cell.RangeDelta) >= 0 && cell.Satellite.RangeWholeMillis == 255 ==> result == 0
-//@ ensures[C08] Cell4WF(cell) && aggRange(cell.Satellite.RangeWholeMillis, cell.Satellite.RangeFractionalMillis, 32 * cell.RangeDelta) >= 0 && cell.Satellite.RangeWholeMillis != 255 && cell.RangeDelta == 0 - 16384 ==> result == aggRange(cell.Satellite.RangeWholeMillis, cell.Satellite.RangeFractionalMillis, 0)
+//@ ensures[C08] Cell4WF(cell) && cell.Satellite.RangeWholeMillis == 255 ==> result == 0
+//@ ensures[C08] Cell4WF(cell) && cell.Satellite.RangeWholeMillis != 255 && cell.RangeDelta == 0 - 16384 ==> result == aggRange(cell.Satellite.RangeWholeMillis, cell.Satellite.RangeFractionalMillis, 0)
 //@ ensures[C08] Cell4WF(cell) && aggRange(cell.Satellite.RangeWholeMillis, cell.Satellite.RangeFractionalMillis, 32 * cell.RangeDelta) >= 0 && cell.Satellite.RangeWholeMillis != 255 && cell.RangeDelta != 0 - 16384 ==> result == aggRange(cell.Satellite.RangeWholeMillis, cell.Satellite.RangeFractionalMillis, 32 * cell.RangeDelta)
 //@ ensures[C08] Cell4WF(cell) && aggRange(cell.Satellite.RangeWholeMillis, cell.Satellite.RangeFractionalMillis, 32 * cell.RangeDelta) >= 0 ==> result < 274877906944
 
 //@ func (*Cell).GetAggregatePhaseRange
 //@ arith wrap
 //@ requires[C07] cell != nil
-//@ ensures[C08] Cell4WF(cell) && aggPhase(cell.Satellite.RangeWholeMillis, cell.Satellite.RangeFractionalMillis, 4 * cell.PhaseRangeDelta) >= 0 && cell.Satellite.RangeWholeMillis == 255 ==> result == 0
-//@ ensures[C08] Cell4WF(cell) && aggPhase(cell.Satellite.RangeWholeMillis, cell.Satellite.RangeFractionalMillis, 4 * cell.PhaseRangeDelta) >= 0 && cell.Satellite.RangeWholeMillis != 255 && cell.PhaseRangeDelta == 0 - 2097152 ==> result == aggPhase(cell.Satellite.RangeWholeMillis, cell.Satellite.RangeFractionalMillis, 0)
+//@ ensures[C08] Cell4WF(cell) && cell.Satellite.RangeWholeMillis == 255 ==> result == 0
+//@ ensures[C08] Cell4WF(cell) && cell.Satellite.RangeWholeMillis != 255 && cell.PhaseRangeDelta == 0 - 2097152 ==> result == aggPhase(cell.Satellite.RangeWholeMillis, cell.Satellite.RangeFractionalMillis, 0)
 //@ ensures[C08] Cell4WF(cell) && aggPhase(cell.Satellite.RangeWholeMillis, cell.Satellite.RangeFractionalMillis, 4 * cell.PhaseRangeDelta) >= 0 && cell.Satellite.RangeWholeMillis != 255 && cell.PhaseRangeDelta != 0 - 2097152 ==> result == aggPhase(cell.Satellite.RangeWholeMillis, cell.Satellite.RangeFractionalMillis, 4 * cell.PhaseRangeDelta)
 //@ ensures[C08] Cell4WF(cell) && aggPhase(cell.Satellite.RangeWholeMillis, cell.Satellite.RangeFractionalMillis, 4 * cell.PhaseRangeDelta) >= 0 ==> result < 1099511627776
 
@@ -120,10 +123,14 @@ package signal
 //@ func (*Cell).RangeInMetres
 //@ arith wrap
 //@ requires[C07] cell != nil
+//@ ensures[C08] Cell4WF(cell) && cell.Satellite.RangeWholeMillis == 255 ==> result == 0.0
+//@ ensures[C08] Cell4WF(cell) && cell.Satellite.RangeWholeMillis != 255 && cell.RangeDelta == 0 - 16384 ==> near(result, CLIGHT_MS * (real(cell.Satellite.RangeWholeMillis) + real(cell.Satellite.RangeFractionalMillis) / 1024.0), 4)
 //@ ensures[C08] Cell4WF(cell) && cell.Satellite.RangeWholeMillis != 255 && cell.RangeDelta != 0 - 16384 && aggRange(cell.Satellite.RangeWholeMillis, cell.Satellite.RangeFractionalMillis, 32 * cell.RangeDelta) >= 0 ==> near(result, CLIGHT_MS * (real(cell.Satellite.RangeWholeMillis) + real(cell.Satellite.RangeFractionalMillis) / 1024.0 + real(cell.RangeDelta) / 16777216.0), 4)
 
 // phase range in cycles = c/1000 x (whole + frac/1024 + fine x 2^-29) / wavelength; fine x 2^-29 = 4 fine x 2^-31
 //@ func (*Cell).PhaseRange
 //@ arith wrap
 //@ requires[C07] cell != nil
+//@ ensures[C08] Cell4WF(cell) && cell.Satellite.RangeWholeMillis == 255 && cell.Wavelength > 0.0 ==> result == 0.0
+//@ ensures[C08] Cell4WF(cell) && cell.Satellite.RangeWholeMillis != 255 && cell.PhaseRangeDelta == 0 - 2097152 && cell.Wavelength > 0.0 ==> near(result * cell.Wavelength, CLIGHT_MS * (real(cell.Satellite.RangeWholeMillis) + real(cell.Satellite.RangeFractionalMillis) / 1024.0), 6)
 //@ ensures[C08] Cell4WF(cell) && cell.Satellite.RangeWholeMillis != 255 && cell.PhaseRangeDelta != 0 - 2097152 && aggPhase(cell.Satellite.RangeWholeMillis, cell.Satellite.RangeFractionalMillis, 4 * cell.PhaseRangeDelta) >= 0 && cell.Wavelength > 0.0 ==> near(result * cell.Wavelength, CLIGHT_MS * (real(cell.Satellite.RangeWholeMillis) + real(cell.Satellite.RangeFractionalMillis) / 1024.0 + real(cell.PhaseRangeDelta) / 536870912.0), 6)
